@@ -61,10 +61,31 @@ def soc_holds(vals):
     return p_and(p_le(0, head), p_le(ss, head * head))
 
 
+KEXP = None
+
+
+def exp_holds(a, b, c):
+    """(a, b, c) in the exponential cone  c*exp(a/c) <= b, c > 0 (closure).  Kept as an uninterpreted
+    predicate on proxies: the dual contracts only need that equal arguments give equal membership."""
+    if any(isinstance(v, SymReal) for v in (a, b, c)):
+        global KEXP
+        import z3
+        from ..sym import SymBool, to_z3
+        if KEXP is None:
+            KEXP = z3.Function("KEXP", z3.RealSort(), z3.RealSort(), z3.RealSort(), z3.BoolSort())
+        return SymBool(KEXP(to_z3(a), to_z3(b), to_z3(c)))
+    a, b, c = float(a), float(b), float(c)
+    if c > 0:
+        return c * math.exp(a / c) <= b + 1e-7 * (1 + abs(b))
+    return c == 0 and a <= 0 and b >= 0
+
+
 def cones_hold(F, x):
     terms = []
     for q in getattr(F, "qmat", []) or []:
         terms.append(soc_holds([x[int(i)] for i in q]))
+    for e in getattr(F, "xmat", []) or []:
+        terms.append(exp_holds(x[int(e[0])], x[int(e[1])], x[int(e[2])]))
     return p_and(*terms)
 
 
@@ -101,6 +122,8 @@ def dual_feas(R, w):
     in_cone = set()
     for Q in getattr(R, "qmat", []) or []:
         in_cone.update(int(i) for i in Q)
+    for Q in getattr(R, "xmat", []) or []:
+        in_cone.update(int(i) for i in Q)
     for k in range(n):
         u, l = ub[k], lb[k]
         up0 = (not isinstance(u, SymReal)) and not _isinf(u, +1) and float(u) == 0
@@ -123,6 +146,10 @@ def dual_feas(R, w):
             return False        # a dual variable with a finite non-zero bound: not a form this spec covers
     for Q in getattr(R, "qmat", []) or []:
         terms.append(soc_holds([red[int(i)] for i in Q]))
+    for Q in getattr(R, "xmat", []) or []:
+        # (u, v, w) in the dual exponential cone  <=>  (u - w, v, -u) in the exponential cone   (M3)
+        u, v, w_ = (red[int(i)] for i in Q)
+        terms.append(exp_holds(u - w_, v, -u))
     return p_and(*terms)
 
 
